@@ -533,11 +533,15 @@ class UnitCalculator(object):
                 logger.critical('Exponent of Pow is not dimensionless %s', expr)
                 raise InputArgumentsMustBeDimensionlessError(str(expr), 'second')
 
-            if not isinstance(exponent.magnitude, (sympy.Number, numbers.Number)):
-                logger.critical('Exponent of Pow is not a number (is %s): %s',
-                                type(exponent.magnitude).__name__,
-                                expr)
-                raise InputArgumentMustBeNumberError(str(expr), 'second')
+            # The value of the exponent is that of the exponent expression (the magnitude traversed above is only
+            # that of the first operand of a sum or piecewise, and 1 for log, trig etc.)
+            initial_values = {v: sympy.Float(v.initial_value) for v in expr.args[1].free_symbols
+                              if isinstance(v, model.Variable) and v.initial_value and v.initial_value != 0.0}
+            try:
+                exponent = self._registry.Quantity(float(expr.args[1].xreplace(initial_values)), dimensionless)
+            except TypeError:
+                logger.critical('Exponent of Pow is not a number: %s', expr)
+                raise InputArgumentMustBeNumberError(str(expr), 'second') from None
 
             # if base is dimensionless, return is dimensionless
             if base.units == dimensionless:
